@@ -151,6 +151,16 @@ CHECKS["C17"] = dict(
    note="SHA-256 8-hex prefixes are assumed collision-free (checked for the concrete ids used); sequential operation interleavings.",
    design="6/C17", technique=TECH)
 
+CHECKS["C19"] = dict(
+   text=("SyncDist.tla: the sync retry loop and the distributed RETRY / re-queue / counter machine run to completion for every "
+         "script of up to three executions x max_retries 0..2 x default / custom retry_for: SyncEqualsDistributed, ExecutionCount. "
+         "Generated programs (per-execution outcomes ok / RetryError / retry_for exception / non-retriable; sub-tasks singly or as "
+         "a group, depth 2) run on the real code in sync mode and distributed on the memory and SQLite stacks with the real "
+         "ThreadRunner (deterministic world); TLC compares kind, value and per-node body executions between the modes and with "
+         "the documented answer computed from the scripts (SyncDistTrace.tla)."),
+   note="Group nodes have at most one failing sub-task; direct-task flavour is covered through the same result path (.result).",
+   design="6/C19", technique=TECH)
+
 NOT_YET = {}
 
 def main() -> None:
